@@ -121,6 +121,10 @@ type vtOp struct {
 	Name    string `json:"name,omitempty"` // dispense
 	// HookMs delays the acceptor right after it took the parked connection
 	HookMs int `json:"hook_ms,omitempty"`
+	// HoldMs: the acceptor answers only this long after it received the dialer's bytes (a connection
+	// that is used long after it was established); ReadLagMs: the dialer starts reading this late
+	HoldMs    int `json:"hold_ms,omitempty"`
+	ReadLagMs int `json:"read_lag_ms,omitempty"`
 }
 
 type vtCase struct {
@@ -156,9 +160,12 @@ func payload(id uint32, n int, dir byte) []byte {
 // exchange runs over an established pair of connections: the dialer sends its token and Up bytes,
 // the acceptor checks them and answers its token and Down bytes.
 func exchangeDialer(conn net.Conn, op vtOp) error {
-	conn.SetDeadline(time.Now().Add(30 * time.Second))
+	conn.SetDeadline(time.Now().Add(60 * time.Second))
 	if _, err := conn.Write(append(token(op.ID, 1), payload(op.ID, op.Up, 'u')...)); err != nil {
 		return fmt.Errorf("dialer write: %w", err)
+	}
+	if op.ReadLagMs > 0 {
+		time.Sleep(time.Duration(op.HoldMs+op.ReadLagMs) * time.Millisecond)
 	}
 	want := append(token(op.ID, 2), payload(op.ID, op.Down, 'd')...)
 	got := make([]byte, len(want))
@@ -172,7 +179,7 @@ func exchangeDialer(conn net.Conn, op vtOp) error {
 }
 
 func exchangeAcceptor(conn net.Conn, op vtOp) error {
-	conn.SetDeadline(time.Now().Add(30 * time.Second))
+	conn.SetReadDeadline(time.Now().Add(60 * time.Second)) // reads only: a write deadline is the library's business
 	want := append(token(op.ID, 1), payload(op.ID, op.Up, 'u')...)
 	got := make([]byte, len(want))
 	if _, err := io.ReadFull(conn, got); err != nil {
@@ -180,6 +187,9 @@ func exchangeAcceptor(conn net.Conn, op vtOp) error {
 	}
 	if !bytes.Equal(got, want) {
 		return fmt.Errorf("ROUTING: the connection accepted for id %d carries bytes of id %d", op.ID, binary.LittleEndian.Uint32(got))
+	}
+	if op.HoldMs > 0 {
+		time.Sleep(time.Duration(op.HoldMs) * time.Millisecond)
 	}
 	if _, err := conn.Write(append(token(op.ID, 2), payload(op.ID, op.Down, 'd')...)); err != nil {
 		return fmt.Errorf("acceptor write: %w", err)
